@@ -49,6 +49,7 @@ pub struct Ctx {
     pub total_only: bool,
     pub space_tag: Option<String>,
     pub extra: BTreeMap<String, Value>,
+    beats: u64,
 }
 
 pub fn hash_case(rule: &Value, data: &Value) -> u64 {
@@ -92,6 +93,7 @@ impl Ctx {
             total_only: false,
             space_tag: None,
             extra: BTreeMap::new(),
+            beats: 0,
         }
     }
 
@@ -99,6 +101,8 @@ impl Ctx {
         self.progress = Some(p);
     }
     pub fn set_trace(&mut self, path: String) {
+        // engines that run calls in other processes (Python driver) write the current call there themselves
+        std::env::set_var("JLMC_TRACE", &path);
         self.trace_path = Some(path);
     }
 
@@ -133,6 +137,18 @@ impl Ctx {
     /// Progress / trace bookkeeping for executions that happen outside this process.
     pub fn tick_external(&mut self, case: &Value) {
         self.tick(&|| case.to_string());
+    }
+
+    /// Progress only (no execution is counted): keeps the parent's hang watchdog informed
+    /// during long engine-internal phases.
+    pub fn heartbeat(&mut self, case: &Value) {
+        self.beats += 1;
+        if let Some(p) = self.progress {
+            unsafe { std::ptr::write_volatile(p, (1u64 << 48) + self.beats) };
+        }
+        if let Some(path) = &self.trace_path {
+            let _ = std::fs::write(path, case.to_string());
+        }
     }
 
     /// Execute the real `apply` once.
